@@ -561,7 +561,7 @@ def main(argv=None):
     if got == sig:
       reported.append((sig, path, sig_counts.get(sig, 0)))
     else:
-      harness_errors.append("violation %s (run %d) did not reproduce from its replay file %s (got %s, rc %s): %s" % (sig, i, path, got, rc, tail))
+      harness_errors.append("violation %s (run %d) did not reproduce from its replay file %s (got %s, rc %s): %s" % (sig, i, path, got, rc, tail.replace("\n", " | ")))
 
   # determinism self-test
   det = {"sample": 0}
@@ -619,7 +619,7 @@ def main(argv=None):
     print("violation signature=%s occurrences=%d" % (sig, cnt))
     print("VIOLATION property=%s replay=%s" % (pid, path))
   for e in harness_errors:
-    print("HARNESS-ERROR: " + str(e)[:3000])
+    print("HARNESS-ERROR: " + str(e)[:3000].replace("\n", " | "))
   sys.stdout.flush()
   if reported:
     return 1
